@@ -515,3 +515,15 @@ Arguments enc2 {H} bytes_of x y.
 Arguments root_view {H} bytes_of o.
 Arguments niece_view {H} bytes_of f.
 Arguments encode_pollard_of_forest {H} bytes_of f numleaves numdels.
+
+(** the pointer-forest image of the reference state [s]: [NumLeaves] = slots ever added,
+    [NumDels] = dead slots, roots = niece view of the compressed trees *)
+Section ForestImage.
+  Variable H : Type.
+  Variable HO : ops H.
+  Variable bytes_of : H -> list byte.
+  Definition forest_image (s : slots H) : pimage :=
+    mkPimage (num_leaves s) (N.of_nat (length s - length (live s)))
+             (niece_view bytes_of (forest HO s)).
+End ForestImage.
+Arguments forest_image {H} HO bytes_of s.
